@@ -68,6 +68,51 @@ def all_defaults():
     return _ALLD
 
 
+def cycle_family(protocol):
+    """archives in which a container A (several kinds, trusted and untrusted names) holds a list B that refers back to A by id,
+    and B is referred to again from outside A: shared nodes inside reference cycles"""
+    import itertools
+
+    def js(v, i):
+        return {"__class__": "str", "__module__": "builtins", "__loader__": "JsonNode", "content": json.dumps(v), "is_json": True, "__id__": i}
+
+    def lst(items, i):
+        return {"__class__": "list", "__module__": "builtins", "__loader__": "ListNode", "content": items, "__id__": i}
+
+    def container(kind, names, cells, i, ids):
+        m, c = names
+        if kind == "objarray":
+            return {"__class__": c, "__module__": m, "__loader__": "NdArrayNode", "type": "json", "content": cells, "__id__": i,
+                    "shape": {"__class__": "tuple", "__module__": "builtins", "__loader__": "TupleNode", "content": [js(len(cells), next(ids))], "__id__": next(ids)}}
+        if kind == "list":
+            return {"__class__": c, "__module__": m, "__loader__": "ListNode", "content": cells, "__id__": i}
+        if kind == "tuple":
+            return {"__class__": c, "__module__": m, "__loader__": "TupleNode", "content": cells, "__id__": i}
+        if kind == "set":
+            return {"__class__": c, "__module__": m, "__loader__": "SetNode", "content": cells, "__id__": i}
+        if kind == "dict":
+            return {"__class__": c, "__module__": m, "__loader__": "DictNode", "__id__": i, "content": {f"k{j}": x for j, x in enumerate(cells)},
+                    "key_types": lst([], next(ids))}
+        return {"__class__": c, "__module__": m, "__loader__": "ObjectNode", "__id__": i,
+                "content": {"__class__": "dict", "__module__": "builtins", "__loader__": "DictNode", "__id__": next(ids),
+                            "content": {f"a{j}": x for j, x in enumerate(cells)}, "key_types": lst([], next(ids))}}
+
+    out = []
+    for kind in ("objarray", "list", "tuple", "set", "dict", "object"):
+        for names in (("mylib.arrays", "Frame"), ("numpy", "matrix"), ("builtins", "list"), ("verif_userclasses", "Plain")):
+            for order in (0, 1):
+                ids = itertools.count(100)
+                a_id, b_id = 1, 2
+                back = container(kind, names, [], a_id, ids)                 # same id as A: the memoized node, from inside itself
+                b = lst([js(7, next(ids)), back] if order == 0 else [back, js("x", next(ids))], b_id)
+                a = container(kind, names, [b], a_id, ids)
+                b_again = lst([], b_id)
+                for root in (lst([a, b_again], 3), lst([lst([a], 4), lst([b_again, js(1, next(ids))], 5)], 6)):
+                    schema = dict(root, protocol=protocol, _skops_version="x")
+                    out.append((f"{kind}/{names[0]}.{names[1]}/{order}", schema))
+    return out
+
+
 def sentences(got, data, T):
     """the property's sentences on the NodeInfo streams of the implementation"""
     fails = []
@@ -159,6 +204,23 @@ def run(ctx):
             reqs.append(dict(op="io.visualize", schema=ioarch.enc(c.schema), members=list(c.members), trusted=T or [], fuel=400))
             items.append((c, T))
     mo = ctx.driver.run(reqs)
+    # ---- shared nodes inside reference cycles: only the property's sentences apply
+    from skops.io._protocol import PROTOCOL as _P
+
+    for label, schema in cycle_family(_P):
+        data = ioarch.make_zip(schema, {})
+        for T in (None, [], ["mylib.arrays.Frame"], ["numpy.matrix", "verif_userclasses.Plain"]):
+            try:
+                got = impl_rows(data, T)
+            except RecursionError:
+                continue
+            except Exception:
+                continue
+            stats["cycle_family"] = stats.get("cycle_family", 0) + 1
+            for f in sentences(got, data, T):
+                ofails.append((f, dict(kind="archive", schema=schema, members=[], trusted=T, family=label)))
+        if len(ofails) > 6:
+            break
     for (c, T), m in zip(items, mo):
         try:
             got, err = impl_rows(c.data, T), None
